@@ -316,6 +316,14 @@ int main(int argc, char** argv)
     }
 
     size_t spaced_bins = std::ceil(ps_bins*nbuckets*spacing_ps);
+    if (nbuckets > 1) {
+        /* spacing_bins is rounded (possibly up): the last bucket starts at
+         * (nbuckets-1)*spacing_bins and has to fit completely
+         */
+        spaced_bins = std::max(spaced_bins,
+                               static_cast<size_t>(nbuckets-1)*spacing_bins
+                               +ps_bins);
+    }
     if (opts.getRoundPadding()) {
         spaced_bins = upper_power_of_two(spaced_bins);
     }
